@@ -80,6 +80,13 @@ pub struct Case {
     pub relative_path: bool,
     /// working directory of the process (set by `materialise`)
     pub cwd: Option<String>,
+    /// file name as raw bytes (hex) when it is not valid UTF-8; overrides `file_name`
+    pub file_name_hex: String,
+    /// address-space limit of the process in MiB (0 = none): the environment a CI job or a service manager may impose
+    pub rlimit_as_mb: u64,
+    /// the argument vector and the planned path as bytes (set by `materialise`; a path need not be UTF-8)
+    pub argv_os: Vec<Vec<u8>>,
+    pub path_bytes: Vec<u8>,
     pub note: String,
 }
 
@@ -91,7 +98,7 @@ impl Case {
             "path": self.path, "file_hex": hex(&self.file), "file_text": String::from_utf8_lossy(&self.file[..self.file.len().min(200)]),
             "file_mode": match self.file_mode { FileMode::Memfd => "memfd", FileMode::Absent => "absent", FileMode::RealDir => "realdir", FileMode::RealFs => "realfs", FileMode::None => "none" },
             "env": self.env.iter().map(|(k, v)| json!([k, v])).collect::<Vec<_>>(),
-            "file_name": self.file_name, "stdin_kind": self.stdin_kind, "stdin_offset": self.stdin_offset, "relative_path": self.relative_path,
+            "file_name": self.file_name, "stdin_kind": self.stdin_kind, "stdin_offset": self.stdin_offset, "file_name_hex": self.file_name_hex, "rlimit_as_mb": self.rlimit_as_mb, "relative_path": self.relative_path,
             "tty": self.tty, "tty_out": self.tty_out, "seed": self.seed.to_string(),
             "events": self.events.iter().map(|(c, k, a)| json!([c, k, a])).collect::<Vec<_>>(),
             "dchunk": self.dchunk.iter().map(|(c, n)| json!([c, n])).collect::<Vec<_>>(),
@@ -154,6 +161,10 @@ impl Case {
             stdin_offset: v.get("stdin_offset").and_then(|x| x.as_u64()).unwrap_or(0) as usize,
             relative_path: v.get("relative_path").and_then(|x| x.as_bool()).unwrap_or(false),
             cwd: None,
+            file_name_hex: v.get("file_name_hex").and_then(|x| x.as_str()).unwrap_or("").to_string(),
+            rlimit_as_mb: v.get("rlimit_as_mb").and_then(|x| x.as_u64()).unwrap_or(0),
+            argv_os: vec![],
+            path_bytes: vec![],
             note: v.get("note").and_then(|x| x.as_str()).unwrap_or("").to_string(),
         })
     }
@@ -176,8 +187,9 @@ impl Case {
             FileMode::Memfd | FileMode::Absent | FileMode::RealDir => {
                 // the planned path is a real path (regular file / nothing / a directory): open passes through
                 // to the kernel and the descriptor is tracked for the read and stat scripts
-                p.push_str(&format!("path {}\n", hex(self.path.as_bytes())));
-                p.push_str(&format!("real {}\n", hex(self.path.as_bytes())));
+                let pb: &[u8] = if self.path_bytes.is_empty() { self.path.as_bytes() } else { &self.path_bytes };
+                p.push_str(&format!("path {}\n", hex(pb)));
+                p.push_str(&format!("real {}\n", hex(pb)));
             }
             FileMode::None | FileMode::RealFs => {}
         }
@@ -244,25 +256,52 @@ pub const PLANNED_PATH: &str = "/nonexistent-simenv/inputs/cases.txt";
 
 /// Puts the planned file system object in place and returns the case with the real path substituted.
 pub fn materialise(case: &Case, bins: &Binaries, slot: usize) -> Result<Case, String> {
+    use std::os::unix::ffi::OsStrExt;
     let dir = format!("{}/w{:02}", bins.scratch, slot);
-    let name = if case.file_name.is_empty() { "cases.txt" } else { case.file_name.as_str() };
+    let name: Vec<u8> = if !case.file_name_hex.is_empty() {
+        unhex(&case.file_name_hex)
+    } else if case.file_name.is_empty() {
+        b"cases.txt".to_vec()
+    } else {
+        case.file_name.as_bytes().to_vec()
+    };
     // a relative name is resolved against the working directory, which run_case sets to the slot directory
-    let real = if case.relative_path { name.to_string() } else { format!("{}/{}", dir, name) };
-    let on_disk = format!("{}/{}", dir, name);
+    let mut real: Vec<u8> = if case.relative_path { vec![] } else { format!("{}/", dir).into_bytes() };
+    real.extend_from_slice(&name);
+    let mut on_disk: Vec<u8> = format!("{}/", dir).into_bytes();
+    on_disk.extend_from_slice(&name);
+    let on_disk_path = std::path::PathBuf::from(std::ffi::OsStr::from_bytes(&on_disk));
     let _ = std::fs::remove_dir_all(&dir);
     std::fs::create_dir_all(&dir).map_err(|e| format!("{}: {}", dir, e))?;
-    let mut c = case.clone();
-    let sub = |s: &str| s.replace(PLANNED_PATH, &real);
-    c.argv = c.argv.iter().map(|a| sub(a)).collect();
-    if c.stdin.windows(PLANNED_PATH.len()).any(|w| w == PLANNED_PATH.as_bytes()) {
-        c.stdin = sub(&String::from_utf8_lossy(&c.stdin)).into_bytes();
+    if let Some(parent) = on_disk_path.parent() {
+        std::fs::create_dir_all(parent).map_err(|e| format!("{:?}: {}", parent, e))?;
     }
+    let mut c = case.clone();
+    let ph = PLANNED_PATH.as_bytes();
+    let sub_bytes = |src: &[u8]| -> Vec<u8> {
+        let mut out = vec![];
+        let mut i = 0;
+        while i < src.len() {
+            if src[i..].starts_with(ph) {
+                out.extend_from_slice(&real);
+                i += ph.len();
+            } else {
+                out.push(src[i]);
+                i += 1;
+            }
+        }
+        out
+    };
+    c.argv_os = c.argv.iter().map(|a| sub_bytes(a.as_bytes())).collect();
+    c.argv = c.argv_os.iter().map(|a| String::from_utf8_lossy(a).to_string()).collect();
+    c.stdin = sub_bytes(&c.stdin);
     if c.path == PLANNED_PATH {
-        c.path = real.clone();
+        c.path_bytes = real.clone();
+        c.path = String::from_utf8_lossy(&real).to_string();
     }
     match c.file_mode {
-        FileMode::Memfd | FileMode::RealFs => std::fs::write(&on_disk, &c.file).map_err(|e| format!("{}: {}", on_disk, e))?,
-        FileMode::RealDir => std::fs::create_dir_all(&on_disk).map_err(|e| format!("{}: {}", on_disk, e))?,
+        FileMode::Memfd | FileMode::RealFs => std::fs::write(&on_disk_path, &c.file).map_err(|e| format!("{:?}: {}", on_disk_path, e))?,
+        FileMode::RealDir => std::fs::create_dir_all(&on_disk_path).map_err(|e| format!("{:?}: {}", on_disk_path, e))?,
         FileMode::Absent | FileMode::None => {}
     }
     c.cwd = Some(dir);
@@ -284,8 +323,28 @@ pub fn run_case(case: &Case, bins: &Binaries, timeout_s: u64) -> Result<Observed
     if let Some(d) = &case.cwd {
         cmd.current_dir(d);
     }
+    {
+        use std::os::unix::ffi::OsStrExt;
+        use std::os::unix::process::CommandExt;
+        if case.argv_os.is_empty() {
+            cmd.args(&case.argv);
+        } else {
+            for a in &case.argv_os {
+                cmd.arg(std::ffi::OsStr::from_bytes(a));
+            }
+        }
+        if case.rlimit_as_mb > 0 {
+            let bytes = case.rlimit_as_mb << 20;
+            unsafe {
+                cmd.pre_exec(move || {
+                    let lim = libc::rlimit { rlim_cur: bytes, rlim_max: bytes };
+                    libc::setrlimit(libc::RLIMIT_AS, &lim);
+                    Ok(())
+                });
+            }
+        }
+    }
     let mut child = cmd
-        .args(&case.argv)
         .env_clear()
         .envs(case.env.iter().map(|(k, v)| (k.clone(), v.clone())))
         .env("LD_PRELOAD", &bins.shim)
@@ -550,7 +609,8 @@ pub fn expectation(case: &Case, o: &Observed) -> Expect {
                 Ok(s) => s,
                 Err(_) => return Expect::Unusable("path on stdin is not valid UTF-8".into()),
             };
-            if p.trim() != case.path {
+            let planned: &[u8] = if case.path_bytes.is_empty() { case.path.as_bytes() } else { &case.path_bytes };
+            if p.trim().as_bytes() != planned {
                 // a truncated or different path: whatever it names in the real file system is not a usable input
                 // (planned paths are chosen so that every proper prefix is absent or a directory)
                 return Expect::Unusable(format!("stdin names {:?}, not the planned file", p.trim()));
